@@ -26,7 +26,7 @@ RULE = ('seeded two-file worlds: data file from the stub encoder (metadata-less 
         'properties, lengths, dtypes and data; the index alone (path and TDSh stream) gives the same metadata and '
         'refuses data reads. distinct = (segment shapes | program shape, index producer, backend, cut class); '
         'non-trivial = a channel with >= 1 value was compared with and without index')
-EXPECTED_PROBES = ['descriptor-limit', 'names-changed-after-open', 'stub-index', 'writer-index', 'cut-data-complete-index', 'padding', 'segment-without-metadata',
+EXPECTED_PROBES = ['index-older-or-newer', 'descriptor-limit', 'names-changed-after-open', 'stub-index', 'writer-index', 'cut-data-complete-index', 'padding', 'segment-without-metadata',
                    'index-only-path', 'index-only-stream', 'realpath']
 
 
@@ -63,6 +63,8 @@ def generate(rng, tier):
             # a process that keeps several files open works close to its descriptor limit: the index file must not cost a
             # descriptor for longer than it is being read
             'fd_limit': rng.random() < 0.08,
+            # file-system times: the index is much older / newer than the data file (copied first, restored from a backup)
+            'index_age': rng.choice([None] * 8 + [-3600.0, 7200.0]),
             'raw_ts': rng.random() < 0.4, 'win_seed': rng.getrandbits(32), 'debug_log': rng.random() < 0.05}
 
 
@@ -191,6 +193,13 @@ def execute(case):
             st.put('w.tdms', data, real=real)
             if with_index:
                 st.put('w.tdms_index', index, real=real)
+                if case.get('index_age') is not None:
+                    res.probe('index-older-or-newer')
+                    if real:
+                        t = os.path.getmtime(os.path.join(st.realdir(), 'w.tdms'))
+                        os.utime(os.path.join(st.realdir(), 'w.tdms_index'), (t + case['index_age'], t + case['index_age']))
+                    else:
+                        st.fs.mtimes['w.tdms_index'] = 1700000000.0 + case['index_age']
             path = os.path.join(st.realdir(), 'w.tdms') if real else SIM_ROOT + 'w.tdms'
             if case.get('pathlib'):
                 import pathlib
